@@ -52,6 +52,7 @@ class Hist:
             params = {"func": "self", "static": "", "classm": "cls", "prop0": "self", "prop1": "self, value", "prop2": "self"}[kind]
             ns = {}
             name = key if kind in ("func", "static", "classm") else "p"
+            name = self.case.get("fnNames", {}).get(str(f), name)
             exec("def %s(%s):\n    return None" % (name if name.isidentifier() else "m", params), ns)
             fn = [v for k, v in ns.items() if k != "__builtins__"][0]
             fn._fid = f
